@@ -136,6 +136,9 @@ def apply_tiff_predictor(
     if bitspercomponent != 8:
         error_msg = f"Unsupported `bitspercomponent': {bitspercomponent}"
         raise PDFValueError(error_msg)
+    if colors < 1 or columns < 1:
+        error_msg = f"Invalid `colors' or `columns': {colors}, {columns}"
+        raise PDFValueError(error_msg)
     bpp = colors * (bitspercomponent // 8)
     nbytes = columns * bpp
     buf: List[int] = []
@@ -166,12 +169,16 @@ def apply_png_predictor(
         msg = "Unsupported `bitspercomponent': %d" % bitspercomponent
         raise PDFValueError(msg)
 
+    if colors < 1 or columns < 1:
+        msg = "Invalid `colors' or `columns': %d, %d" % (colors, columns)
+        raise PDFValueError(msg)
+
     # number of bytes per scanline, rounded up to a whole byte
     nbytes = (colors * columns * bitspercomponent + 7) // 8
     # number of bytes per complete pixel, rounded up to one
     bpp = max(1, colors * bitspercomponent // 8)
     buf = []
-    line_above = list(b"\x00" * nbytes)
+    line_above = list(b"\x00" * min(nbytes, len(data)))
     for scanline_i in range(0, len(data), nbytes + 1):
         filter_type = data[scanline_i]
         line_encoded = data[scanline_i + 1 : scanline_i + 1 + nbytes]
